@@ -89,8 +89,10 @@ class Pattern:
             name, q = ph
             if q:
                 raise Undefined("quantified wildcard outside a list")
-            if n is None or isinstance(n, list):
-                raise Undefined("wildcard against an absent optional field")
+            if n is None:
+                return  # an absent child: no syntax tree put in place of the wildcard gives this code
+            if isinstance(n, list):
+                raise Undefined("wildcard against a list field")
             yield from self._bind(name, n, env)
             return
         if isinstance(t, ast.AST):
